@@ -32,6 +32,11 @@ pub enum Case {
   Scalar { fields: u8, arms: Vec<StateArm>, args: Vec<u8>, ill: Ill, default_limit: bool, #[serde(default)] split: bool },
   /// array-pattern machines: template, initial vector, counter, variant
   Array { template: u8, xs: Vec<u8>, n: u8, variant: u8 },
+  /// generated array machine: one state whose arms are an ordered selection from a pool of ten array patterns (head|tail, two-element
+  /// prefix|tail, suffix after a spread, both ends, exact lengths 0/1/2, prefix before a spread, …), each with its own transition; the
+  /// array shrinks on every step, so the empty and the one-element array are visited. `[h | tail]` and `[]` are appended when missing, so
+  /// that some arm always matches; the first matching arm in source order must be the one taken
+  Drain { order: Vec<u8>, xs: Vec<u8>, acc: u8 },
   /// machine whose input is declared with a SIZED vector kind (`[u64]:1,L` or `[u64]:L,1`), called with: 0 a matching literal, 1 the other
   /// orientation, 2 one element too many, 3 one too few, 4 f64 elements, 5 a transposed variable of the other orientation
   Sized { len: u8, column: bool, xs: Vec<u8>, form: u8 },
@@ -72,8 +77,9 @@ impl Prop for C17 {
         .prop_map(move |(arms, args, ill, split)| Case::Scalar { fields, arms, args, ill, default_limit: false, split })
     }).boxed();
     let array = (0u8..4, proptest::collection::vec(0u8..9, 1..=5), 0u8..5, 0u8..4).prop_map(|(template, xs, n, variant)| Case::Array { template, xs, n, variant }).boxed();
+    let drain = (proptest::collection::vec(0u8..10, 1..=5), proptest::collection::vec(0u8..9, 1..=5), 0u8..5).prop_map(|(order, xs, acc)| Case::Drain { order, xs, acc }).boxed();
     let sized = (2u8..=4, any::<bool>(), proptest::collection::vec(1u8..9, 5), 0u8..6).prop_map(|(len, column, xs, form)| Case::Sized { len, column, xs, form }).boxed();
-    prop_oneof![5 => scalar, 2 => array, 1 => sized].boxed()
+    prop_oneof![5 => scalar, 2 => array, 1 => sized, 3 => drain].boxed()
   }
   fn fixed_cases(_t: Tier) -> Vec<Case> {
     // one non-terminating machine run under the default transition limit
@@ -84,7 +90,8 @@ impl Prop for C17 {
      transition or a guarded branch list closed by `*`, possibly with overlapping guards; every transition makes progress so the machine \
      terminates) run on small inputs, or an ill-formed variant (argument of the wrong kind, transition to a state without an arm, a \
      non-terminating self loop under max_steps=500 and once under the default limit), or an array-pattern machine (head/last/spread \
-     patterns, states revisited with changing elements). Oracle: reference simulation; the result *and* the state-name sequence read from \
+     patterns, states revisited with changing elements), or a generated drain machine (one state, 2-7 arms in random order from a pool of ten array patterns incl. suffix-after-spread, both ends, exact lengths 0/1/2, \
+     the array shrinking to one and zero elements; the arm index of every transition is read from the trace). Oracle: reference simulation; the result *and* the state-name sequence read from \
      the [fsm] step trace events are compared. Non-trivial = ≥3 states visited or a branch taken where two guards hold; distinct key = \
      (machine shape, visited state sequence)."
   }
@@ -152,6 +159,11 @@ fn render(c: &Case) -> String {
       let (pre, arg) = match form % 6 { 0 => (String::new(), lit(l, *column, false)), 1 => (String::new(), lit(l, !*column, false)), 2 => (String::new(), lit(l + 1, *column, false)), 3 => (String::new(), lit(l - 1, *column, false)), 4 => (String::new(), lit(l, *column, true)), _ => (format!("w := {}\n", lit(l, *column, false)), "w'".to_string()) };
       format!("{}#First(xs<{}>) => <u64>\n  ├ :Start(xs<{}>)\n  └ :Done(out<u64>).\n\n#First(xs<{}>) -> :Start(xs)\n  :Start([x ...]) -> :Done(x)\n  :Done(out) => out.\n\n#First({})", pre, kind, kind, kind, arg)
     }
+    Case::Drain { order, xs, acc } => {
+      let v = format!("[{}]", xs.iter().map(|x| format!("{}u64", x)).collect::<Vec<_>>().join(" "));
+      let arms = drain_arms(order).iter().map(|k| format!("  :Go({}, acc) -> {}\n", DRAIN_POOL[*k as usize].0, DRAIN_POOL[*k as usize].1)).collect::<String>();
+      format!("#Dr(xs<[u64]>, acc<u64>) => <u64>\n  ├ :Go(xs<[u64]>, acc<u64>)\n  └ :Done(out<u64>).\n\n#Dr(xs<[u64]>, acc<u64>) -> :Go(xs, acc)\n{}  :Done(out) => out.\n\n#Dr({}, {}u64)", arms, v, acc)
+    }
     Case::Array { template, xs, n, variant } => {
       let v = format!("[{}]", xs.iter().map(|x| format!("{}u64", x)).collect::<Vec<_>>().join(" "));
       let out = if variant % 2 == 0 { "x" } else { "y" };
@@ -195,6 +207,53 @@ fn simulate(fields: u8, arms: &[StateArm], args: &[u8]) -> Option<(u128, Vec<Str
   None
 }
 
+/// (pattern, transition) of the drain machine's arm pool
+const DRAIN_POOL: [(&str, &str); 10] = [
+  ("[h | tail]", ":Go(tail, acc + h)"),
+  ("[… y]", ":Done(acc + y)"),
+  ("[… y z]", ":Done(acc + y * 10u64 + z)"),
+  ("[x … y]", ":Go([x], acc + y)"),
+  ("[x]", ":Done(acc + x + 100u64)"),
+  ("[]", ":Done(acc)"),
+  ("[x y]", ":Go([y], acc + x)"),
+  ("[x …]", ":Done(acc + x + 1000u64)"),
+  ("[a b | tail]", ":Go(tail, acc + a * b)"),
+  ("[x y … z]", ":Go([y z], acc + x)"),
+];
+
+/// the arm list: the distinct entries of `order`, then `[h | tail]` and `[]` if they are missing
+fn drain_arms(order: &[u8]) -> Vec<u8> {
+  let mut a: Vec<u8> = vec![];
+  for k in order { let k = k % 10; if !a.contains(&k) { a.push(k); } }
+  for k in [0u8, 5] { if !a.contains(&k) { a.push(k); } }
+  a
+}
+
+/// reference run of the drain machine: result and the index of the arm taken at every step
+fn simulate_drain(order: &[u8], xs: &[u8], acc: u8) -> (u128, Vec<usize>) {
+  let arms = drain_arms(order);
+  let mut v: Vec<u128> = xs.iter().map(|x| *x as u128).collect();
+  let mut acc = acc as u128;
+  let mut taken = vec![];
+  loop {
+    let n = v.len();
+    let hit = arms.iter().position(|k| match k { 0 | 1 | 7 => n >= 1, 2 | 3 | 8 => n >= 2, 4 => n == 1, 5 => n == 0, 6 => n == 2, _ => n >= 3 }).expect("[h | tail] and [] cover every array");
+    taken.push(hit);
+    match arms[hit] {
+      0 => { acc += v[0]; v = v[1..].to_vec(); }
+      1 => return (acc + v[n - 1], taken),
+      2 => return (acc + v[n - 2] * 10 + v[n - 1], taken),
+      3 => { acc += v[n - 1]; v = vec![v[0]]; }
+      4 => return (acc + v[0] + 100, taken),
+      5 => return (acc, taken),
+      6 => { acc += v[0]; v = vec![v[1]]; }
+      7 => return (acc + v[0] + 1000, taken),
+      8 => { acc += v[0] * v[1]; v = v[2..].to_vec(); }
+      _ => { acc += v[0]; v = vec![v[1], v[n - 1]]; }
+    }
+  }
+}
+
 fn simulate_array(template: u8, xs: &[u8], n: u8, variant: u8) -> (u128, usize) {
   let mut v: Vec<u128> = xs.iter().map(|x| *x as u128).collect();
   let mut n = n as u128;
@@ -220,6 +279,25 @@ fn traced_run(src: &str, max_steps: Option<usize>) -> (Outcome, Vec<String>) {
     }
   }
   (out, seq)
+}
+
+/// like traced_run, plus the arm index of every `[transition] arm[k]` event (the output arm of the final state is not a transition)
+fn traced_run_arms(src: &str, max_steps: Option<usize>) -> (Outcome, Vec<String>, Vec<usize>) {
+  let mut sess = Session::new();
+  sess.intrp.set_trace_enabled(true);
+  sess.intrp.set_trace_to_stdout(false);
+  if let Some(m) = max_steps { sess.intrp.max_steps = m; }
+  let out = sess.run(src);
+  let (mut seq, mut arms) = (vec![], vec![]);
+  for e in sess.intrp.trace_events() {
+    if e.channel.as_deref() != Some("fsm") { continue; }
+    match e.label.as_deref().map(|l| l.trim()) {
+      Some("step") => { if let Some(p) = e.message.find(" :") { let rest = &e.message[p + 2..]; seq.push(rest.chars().take_while(|c| c.is_alphanumeric()).collect()); } }
+      Some("transition") => { if let Some(p) = e.message.find("arm[") { if let Ok(k) = e.message[p + 4..].chars().take_while(|c| c.is_ascii_digit()).collect::<String>().parse::<usize>() { arms.push(k); } } }
+      _ => {}
+    }
+  }
+  (out, seq, arms)
 }
 
 fn check(c: &Case) -> Verdict {
@@ -264,6 +342,24 @@ fn check(c: &Case) -> Verdict {
         if !matches!(&out, Outcome::Ok(val) if *val == RVal::S(Sc::U(64, xs[0] as u128))) { v.fail("C17|sized-input-wrong", format!("expected {}u64, got {}:\n{}", xs[0], out.show(), src)); }
       } else if out.is_ok() {
         v.fail(format!("C17|ill-formed-accepted|sized-input|{}", ["", "other-orientation", "too-long", "too-short", "element-kind", "transposed-variable"][(*form % 6) as usize]), format!("an argument that does not have the declared kind must be rejected, got {}:\n{}", out.show(), src));
+      }
+    }
+    Case::Drain { order, xs, acc } => {
+      let (out, seq, arms_taken) = traced_run_arms(&src, Some(500));
+      if let Outcome::NotCode | Outcome::ParseErr(_) = out { v.harness(format!("machine did not parse as code ({}):\n{}", out.show(), src)); return v; }
+      if let Outcome::Panic(m) = &out { v.fail("C17|panic-escaped", format!("{}\n{}", m, src)); return v; }
+      v.label("array-drain-machine");
+      let (want, taken) = simulate_drain(order, xs, *acc);
+      let arms = drain_arms(order);
+      for k in &arms { v.label(format!("drain-arm:{}", DRAIN_POOL[*k as usize].0)); }
+      let fell_through = taken.iter().any(|t| *t > 0);
+      if fell_through { v.key = Some(format!("drain|{:?}|{}|{:?}", arms, xs.len(), taken)); }
+      match &out {
+        Outcome::Ok(val) => {
+          if *val != RVal::S(Sc::U(64, want)) { v.fail("C17|array-machine-wrong|drain", format!("expected {}u64 (arms taken {:?}), got {} (states {}, arms {:?}):\n{}", want, taken, val.show(), seq.join(">"), arms_taken, src)); return v; }
+          if arms_taken != taken { v.fail("C17|array-machine-arm-sequence|drain", format!("expected arms {:?}, the trace shows {:?}:\n{}", taken, arms_taken, src)); }
+        }
+        other => v.fail(format!("C17|array-machine-rejected|drain|{}", other.class()), format!("expected {}u64 (arms {:?}), got {} (trace arms {:?}):\n{}", want, taken, other.show(), arms_taken, src)),
       }
     }
     Case::Array { template, xs, n, variant } => {
